@@ -25,6 +25,9 @@ def race_pass(ctx):
 
 
 def run(ctx):
+    # D: BTree.tla with two values: the tree denotes the ideal map; a Put of a present key writes one value slot and
+    #    leaves the node structure alone (design-level half of the concurrency clause)
+    mc(ctx, "tree", "BTree", "bt3v.cfg", "BTree fan-out 4, 7 keys x 2 values", coverage=False)
     walks = ctx.pick(1500, 15000)
     # R: the complete P-layer graph over 4 keys x 2 values on every key type / comparator / constructor
     for variant in ("int", "cmp", "rev", "str"):
